@@ -427,6 +427,15 @@ func ruleProtectedHeaders(c *Ctx) {
 			return false
 		}
 		sp.Eval = func(t *Tracer, fr *Frame, cond ssa.Value) (bool, bool) {
+			// membership in a package-level set of header names (`_, ok := protectedHeaders[k]`)
+			if e, isE := cond.(*ssa.Extract); isE && e.Index == 1 {
+				if lk, isL := e.Tuple.(*ssa.Lookup); isL && lk.CommaOk && isKey(t.Resolve(fr, lk.Index).V) {
+					if keys := globalMapKeys(t.Resolve(fr, lk.X).V); keys != nil {
+						return keys[key], true
+					}
+				}
+				return false, false
+			}
 			b, ok := cond.(*ssa.BinOp)
 			if !ok || (b.Op != token.EQL && b.Op != token.NEQ) {
 				return false, false
@@ -595,4 +604,55 @@ func ruleCanonicalize(c *Ctx) {
 		}
 		c.check(bad == "", fnName(fn), "every returned meta passed Canonicalize", p.Pos(fn.Pos()), fmt.Sprintf("%d paths", len(tr.Paths)), bad)
 	}
+}
+
+// globalMapKeys: v is a load of a package-level map variable that the
+// package's init fills from a composite literal with constant string keys;
+// returns those keys (nil if v is not of that form).
+func globalMapKeys(v ssa.Value) map[string]bool {
+	u, ok := v.(*ssa.UnOp)
+	if !ok || u.Op != token.MUL {
+		return nil
+	}
+	g, ok := u.X.(*ssa.Global)
+	if !ok || g.Pkg == nil {
+		return nil
+	}
+	init := g.Pkg.Func("init")
+	if init == nil {
+		return nil
+	}
+	var mk ssa.Value
+	for _, in := range instrsOf(init) {
+		if st, ok := in.(*ssa.Store); ok && st.Addr == ssa.Value(g) {
+			mk = st.Val
+			if ct, isCT := mk.(*ssa.ChangeType); isCT {
+				mk = ct.X
+			}
+		}
+	}
+	if mk == nil {
+		return nil
+	}
+	keys := map[string]bool{}
+	for _, in := range instrsOf(init) {
+		if mu, ok := in.(*ssa.MapUpdate); ok {
+			m := mu.Map
+			if ct, isCT := m.(*ssa.ChangeType); isCT {
+				m = ct.X
+			}
+			if m != mk && mu.Map != mk {
+				continue
+			}
+			s, isS := constString(mu.Key)
+			if !isS {
+				return nil
+			}
+			keys[s] = true
+		}
+	}
+	if len(keys) == 0 {
+		return nil
+	}
+	return keys
 }
